@@ -1,6 +1,9 @@
 // subst_driver.cxx — substitutions (C16).
 // stdin:  elem <p> <v> ? q1 q2 ...          elementary substitution p -> value v
 //         gen <p>:<v>,<p>:<v>,... ? q1 ...   general substitution, bindings applied in order ("-" = none)
+//         copy <bindings> <later> ? q1 ...   a general substitution with <bindings> is copied (assignment into a second one made by
+//                                            the Lexicon), then the ORIGINAL receives the <later> bindings; the COPY is queried
+//         copyc <bindings> <later> ? q1 ...  the same with a copy-constructed local object
 // parameters 0..15 belong to one mapping, 16..31 to another; values are expression indices.
 // stdout: for each query, "v<k>" (the k-th value) or "p<k>" (the parameter itself) or "?" (something else)
 #include <ipr/impl>
@@ -9,6 +12,8 @@
 #include <sstream>
 #include <string>
 #include <vector>
+#include <memory>
+#include <type_traits>
 using namespace ipr;
 
 int main()
@@ -54,6 +59,31 @@ int main()
             }
          }
          s = g;
+      }
+      else if (mode == "copy" or mode == "copyc") {
+         std::string b, later; ss >> b >> later;
+         auto bind = [&](impl::General_substitution& g, const std::string& bs_) {
+            if (bs_ == "-") return;
+            std::stringstream bs(bs_); std::string tok;
+            while (std::getline(bs, tok, ',')) {
+               auto c = tok.find(':');
+               g.subst(*params.at(std::stoi(tok.substr(0, c))), *values.at(std::stoi(tok.substr(c + 1))));
+            }
+         };
+         auto* g = lex.make_general_substitution();
+         bind(*g, b);
+         if constexpr (std::is_copy_assignable_v<impl::General_substitution> and std::is_copy_constructible_v<impl::General_substitution>) {
+            static std::vector<std::unique_ptr<impl::General_substitution>> locals;
+            impl::General_substitution* c = nullptr;
+            if (mode == "copy") { c = lex.make_general_substitution(); *c = *g; }
+            else { locals.push_back(std::make_unique<impl::General_substitution>(*g)); c = locals.back().get(); }
+            bind(*g, later);
+            s = c;
+         }
+         else {
+            std::printf("n/a\n");
+            continue;
+         }
       }
       else continue;
       std::string q; ss >> q;   // "?"
